@@ -304,6 +304,15 @@ impl Field {
             )));
         }
 
+        //= https://www.rfc-editor.org/rfc/rfc9114#section-10.3
+        //# Any request or response that contains a
+        //# character not permitted in a field value MUST be treated as
+        //# malformed.
+        // Pseudo-header field values are field values too: the URI parsers below do not
+        // look at every byte (e.g. what follows a '#' in `:path`)
+        HeaderValue::from_bytes(value.as_ref())
+            .map_err(|_| HeaderError::invalid_value(name, value.as_ref()))?;
+
         Ok(match name {
             b":scheme" => Field::Scheme(try_value(name, value)?),
             //= https://www.rfc-editor.org/rfc/rfc9114#section-4.3.1
